@@ -79,7 +79,8 @@ let () = run_table [
   "frame_partial", (function [t; ks; b] -> hb (frame_partial (zh t) (cps_of ks) (bytes_of_hex b)) | _ -> failwith "args");
   "utf8", (function [t] -> hb (utf8 (cps_of t)) | _ -> failwith "args");
   "contents", (function [f; d] -> (match contents { l_format = zh f; l_name = []; l_mtime = Z0; l_data = bytes_of_hex d } with
-      | VBytes b -> "B " ^ hb b | VLatin1 t -> "T " ^ cps_s t | VUtf8 b -> "U " ^ hb b) | _ -> failwith "args");
+      | VBytes b -> "B " ^ hb b | VText t -> "T " ^ cps_s t | VErr -> "ERR") | _ -> failwith "args");
+  "utf8dec", (function [d] -> opt cps_s (utf8_decode (bytes_of_hex d)) | _ -> failwith "args");
   "sigpeek", (function [h] -> opt (fun s -> String.concat " " [hz s.s_type; hz s.s_halg; hz s.s_pkalg; hb s.s_keyid; hz s.s_created]) (sig_peek (bytes_of_hex h)) | _ -> failwith "args");
   "grammar", (function [f; h] -> pres (fun ps -> bool_s (in_grammar ps)) (parse_pkts decompress (fuel f) (bytes_of_hex h)) | _ -> failwith "args");
 ]
